@@ -1,4 +1,5 @@
 import MinterModel.QEval
+import MinterModel.QRlp
 /-
   Dispatcher over every component's `Q` evaluator.  A component adds one line here.
 -/
@@ -6,8 +7,7 @@ namespace Minter
 
 /-- `none` = no model definition under that name (reported by the driver as a failure, never skipped). -/
 def evalQ (fn : String) (args : List String) : Option String :=
-  match evalKernels fn (args.map intD) with
-  | some r => some r
-  | none => none
+  evalKernels fn (args.map intD)
+  <|> Rlp.rlpEvalQ fn args
 
 end Minter
